@@ -261,7 +261,8 @@ def check(tier: str) -> Result:
             if a is ov and b.kind == "choice" and len(b.args[2]) == 2:
                 zero = strip_cast(b.args[2][1])
                 dep = any(n.kind == "index" and view_core(n.args[0]) is sf.old["action_mask"] for n in deps(b.args[1]))
-                ok = zero.kind == "const" and zero.args[0] == 0 and dep
+                is_zero = (zero.kind == "const" and zero.args[0] == 0) or ext_name(zero) in ("jax.numpy.zeros_like", "jax.numpy.zeros", "numpy.zeros_like", "numpy.zeros")
+                ok = is_zero and dep
                 why = f"locations + where(valid, move, {txt(zero)}); guard reads state.action_mask: {dep}"
     res.add("C05.R2", site, fn, "an agent with an invalid action keeps its location (displacement selected to 0)", ok, why)
     n_sites += 1
